@@ -101,6 +101,42 @@ CTOR_DATE = {
     'IndexSecond(strings)': lambda L, k: sf.IndexSecond([str(x) for x in py(L)]),           # labels re-expressed at a finer unit stay distinct
     'Series(index_constructor=IndexDate)': lambda L, k: sf.Series(np.arange(len(L)), index=[str(x) for x in py(L)], index_constructor=sf.IndexDate).index,
 }
+# coarser and finer datetime index classes: labels at the class's own unit ('M' months, 'Y' years, 's' seconds since the epoch)
+UNIT_CLS = {'M': ('IndexYearMonth', 'IndexYearMonthGO'), 'Y': ('IndexYear', 'IndexYearGO'), 's': ('IndexSecond', 'IndexSecondGO'), 'h': ('IndexHour', 'IndexHourGO')}
+
+
+def unit_labels(rng, unit):
+    base = {'M': 590, 'Y': 48, 's': 1600000000, 'h': 440000}[unit]
+    pool = [['d', unit, base + v] for v in rng.sample(range(0, 30), 8)]
+    n = rng.randint(0, 6)
+    labs = pool[:n]
+    if labs and rng.random() < 0.3:
+        labs = list(labs)
+        labs.insert(rng.randint(0, len(labs)), rng.choice(labs))
+    return labs, pool[n:n + 3]
+
+
+def unit_ctor_event(rng):
+    unit = rng.choice(sorted(UNIT_CLS))
+    labels, absent = unit_labels(rng, unit)
+    static, go = (getattr(sf, n) for n in UNIT_CLS[unit])
+    vals = py(labels)
+    routes = {
+        'list': lambda: static(vals),
+        'go_list': lambda: go(vals),
+        'strings': lambda: static([str(x) for x in vals]),
+        'generator': lambda: static(x for x in vals),
+        'array': lambda: static(np.array(vals, dtype='datetime64[%s]' % unit)),
+        'from_index': lambda: static(sf.Index(vals)),
+        'go_from_static': lambda: go(static(vals)),
+        'static_from_go': lambda: static(go(vals)),
+        'series_index_constructor': lambda: sf.Series(np.arange(len(vals)), index=[str(x) for x in vals], index_constructor=static).index,
+        'frame_columns_constructor': lambda: sf.Frame(np.zeros((1, len(vals))), columns=[str(x) for x in vals], columns_constructor=static).columns,
+    }
+    name = rng.choice(sorted(routes))
+    return {'kind': 'construct', 'route': 'unit_%s:%s' % (unit, name), 'labels': labels, 'obs': attempt(routes[name], py(absent))}
+
+
 CTOR_AUTO = {
     'auto:Series': lambda n: sf.Series(np.arange(n) * 2).index,
     'auto:Frame.columns': lambda n: sf.Frame(np.zeros((2, n))).columns,
@@ -634,6 +670,9 @@ def main(ctx):
         elif q < 0.82:
             events.append(hier_ctor_event(rng))
             ctx.count('V_hier_ctor')
+        elif q < 0.85:
+            events.append(unit_ctor_event(rng))
+            ctx.count('V_unit_ctor')
         elif q < 0.86:
             events.append(isolation_event(rng))
             ctx.count('V_isolation')
